@@ -375,7 +375,9 @@ class _VersionIndependentUnmarshaller:
         if PYTHON_VERSION_TRIPLE >= (3, 0) and self.version_tuple < (3, 0):
             string = UnicodeForPython3(unicodestring)
         else:
-            string = unicodestring.decode()
+            # CPython's marshal uses "surrogatepass" when reading (and
+            # writing) TYPE_UNICODE, so lone surrogates are valid here.
+            string = unicodestring.decode("utf-8", "surrogatepass")
 
         return self.r_ref(string, save_ref)
 
